@@ -572,3 +572,319 @@ Proof. vm_compute. reflexivity. Qed.
 
 Lemma run_knocks_exact kts : groups_exact (map fst kts) (d_groups (run_knocks kts det0)).
 Proof. exact (dinv_exact _ _ (run_knocks_inv kts)). Qed.
+
+(* ================================================================ from the frame to the knock *)
+Open Scope N_scope.
+
+Lemma blen_app (a b : bytes) : blen (a ++ b) = blen a + blen b.
+Proof. unfold blen. rewrite app_length. lia. Qed.
+
+Lemma existsb_eqb_in x l : existsb (N.eqb x) l = true <-> In x l.
+Proof.
+  rewrite existsb_exists. split.
+  - intros (y & Hy & E). apply N.eqb_eq in E. subst; auto.
+  - intros H. exists x. split; auto. apply N.eqb_refl.
+Qed.
+
+Definition v32 (a b c d : N) : N := (a * 256 + b) * 65536 + (c * 256 + d).
+Definition v48 (a b c d e f : N) : N := (a * 256 + b) * 4294967296 + v32 c d e f.
+
+(* ipv4.Parse on a header without options followed by [rest]: the payload is the first
+   TotalLen-20 bytes of rest; version, TOS, id, fragment fields, TTL and checksum are free *)
+Lemma ipv4_decode_hdr v tos tl1 tl0 id1 id0 fr1 fr0 ttl proto ck1 ck0 s0 s1 s2 s3 t0 t1 t2 t3 rest :
+  (v mod 16) * 4 <= 20 + blen rest ->
+  20 <= tl1 * 256 + tl0 <= 20 + blen rest ->
+  ipv4_decode (ip_hdr v tos tl1 tl0 id1 id0 fr1 fr0 ttl proto ck1 ck0 [s0; s1; s2; s3] [t0; t1; t2; t3] ++ rest)
+  = Some (mkIpDec proto (v32 s0 s1 s2 s3) (v32 t0 t1 t2 t3)
+                  (firstn (N.to_nat (tl1 * 256 + tl0 - 20)) rest)).
+Proof.
+  intros Hv Htl. unfold ipv4_decode, ip_hdr.
+  cbn [app]. unfold blen at 1 2 3. cbn [length].
+  unfold be32, u16, u8. cbn [nth skipn].
+  unfold blen in *.
+  assert ((N.of_nat (S (S (S (S (S (S (S (S (S (S (S (S (S (S (S (S (S (S (S (S (length rest)))))))))))))))))))))
+           = 20 + N.of_nat (length rest))) as -> by lia.
+  assert (20 + N.of_nat (length rest) <? 20 = false) as -> by (apply N.ltb_ge; lia).
+  assert (20 + N.of_nat (length rest) <? v mod 16 * 4 = false) as -> by (apply N.ltb_ge; lia).
+  assert (20 + N.of_nat (length rest) <? tl1 * 256 + tl0 = false) as -> by (apply N.ltb_ge; lia).
+  assert (tl1 * 256 + tl0 <? 20 = false) as -> by (apply N.ltb_ge; lia).
+  reflexivity.
+Qed.
+
+(* the Ethernet layer of rx_frame on an IPv4 frame *)
+Lemma rx_frame_eth me tb d0 d1 d2 d3 d4 d5 m0 m1 m2 m3 m4 m5 b :
+  rx_frame me tb (eth_hdr [d0; d1; d2; d3; d4; d5] [m0; m1; m2; m3; m4; m5] ++ b) =
+  match ipv4_decode b with
+  | None => (FNone, tb)
+  | Some ip =>
+      let smac := v48 m0 m1 m2 m3 m4 m5 in let dmac := v48 d0 d1 d2 d3 d4 d5 in
+      let isme := existsb (N.eqb (ip_dst ip)) me in
+      match ip_proto ip with
+      | 1 => if icmp_decode (ip_payload ip) && isme
+             then (FKnock (mkKnock KIcmp smac dmac (ip_src ip) (ip_dst ip) 0), tb) else (FNone, tb)
+      | 17 => match udp_decode (ip_payload ip) with
+              | None => (FNone, tb)
+              | Some (sport, dport) =>
+                  if isme && negb (existsb (N.eqb dport) udp_decoder_ports)
+                  then (FKnock (mkKnock KUdp smac dmac (ip_src ip) (ip_dst ip) dport), tb)
+                  else (FNone, tb)
+              end
+      | 6 => rx_tcp me tb smac dmac ip
+      | _ => (FNone, tb)
+      end
+  end.
+Proof.
+  unfold rx_frame, eth_hdr. cbn [app]. unfold blen at 1. cbn [length].
+  assert (N.of_nat (S (S (S (S (S (S (S (S (S (S (S (S (S (S (length b))))))))))))))) <? 14 = false) as ->
+    by (apply N.ltb_ge; lia).
+  unfold be48, be32, u16, u8. cbn [nth skipn]. cbn [N.eqb N.mul N.add Pos.mul Pos.add Pos.eqb negb].
+  reflexivity.
+Qed.
+
+(* every ICMP message of at least 8 bytes (an echo request without data is 8 bytes), of any
+   type and code, addressed to us, is a knock carrying exactly the frame's addresses *)
+Lemma icmp_frame_knocks me tb d0 d1 d2 d3 d4 d5 m0 m1 m2 m3 m4 m5
+      v tos tl1 tl0 id1 id0 fr1 fr0 ttl ck1 ck0 s0 s1 s2 s3 t0 t1 t2 t3 msg trail :
+  (v mod 16) * 4 <= 20 + blen msg ->
+  8 <= blen msg -> tl1 * 256 + tl0 = 20 + blen msg ->
+  In (v32 t0 t1 t2 t3) me ->
+  rx_frame me tb (eth_hdr [d0; d1; d2; d3; d4; d5] [m0; m1; m2; m3; m4; m5] ++
+                  ip_hdr v tos tl1 tl0 id1 id0 fr1 fr0 ttl 1 ck1 ck0 [s0; s1; s2; s3] [t0; t1; t2; t3] ++
+                  msg ++ trail)
+  = (FKnock (mkKnock KIcmp (v48 m0 m1 m2 m3 m4 m5) (v48 d0 d1 d2 d3 d4 d5)
+                     (v32 s0 s1 s2 s3) (v32 t0 t1 t2 t3) 0), tb).
+Proof.
+  intros Hv Hl Htl Hme. rewrite rx_frame_eth.
+  rewrite ipv4_decode_hdr by (rewrite ?blen_app; lia).
+  cbn [ip_proto ip_payload ip_dst ip_src].
+  replace (N.to_nat (tl1 * 256 + tl0 - 20)) with (length msg) by (unfold blen in *; lia).
+  rewrite firstn_app, Nat.sub_diag, firstn_all. cbn [firstn]. rewrite app_nil_r.
+  unfold icmp_decode. apply N.leb_le in Hl. rewrite Hl.
+  apply existsb_eqb_in in Hme. rewrite Hme. reflexivity.
+Qed.
+
+(* every UDP datagram with consistent lengths to a port without decoder, addressed to us, is a
+   knock with exactly the frame's addresses and destination port - whatever its SOURCE port,
+   checksum and payload *)
+Lemma udp_frame_knocks me tb d0 d1 d2 d3 d4 d5 m0 m1 m2 m3 m4 m5
+      v tos tl1 tl0 id1 id0 fr1 fr0 ttl ck1 ck0 s0 s1 s2 s3 t0 t1 t2 t3
+      sp1 sp0 dp1 dp0 ul1 ul0 uc1 uc0 payload trail :
+  (v mod 16) * 4 <= 28 + blen payload ->
+  tl1 * 256 + tl0 = 28 + blen payload -> ul1 * 256 + ul0 = 8 + blen payload ->
+  In (v32 t0 t1 t2 t3) me ->
+  ~ In (dp1 * 256 + dp0) udp_decoder_ports ->
+  rx_frame me tb (eth_hdr [d0; d1; d2; d3; d4; d5] [m0; m1; m2; m3; m4; m5] ++
+                  ip_hdr v tos tl1 tl0 id1 id0 fr1 fr0 ttl 17 ck1 ck0 [s0; s1; s2; s3] [t0; t1; t2; t3] ++
+                  ([sp1; sp0; dp1; dp0; ul1; ul0; uc1; uc0] ++ payload) ++ trail)
+  = (FKnock (mkKnock KUdp (v48 m0 m1 m2 m3 m4 m5) (v48 d0 d1 d2 d3 d4 d5)
+                     (v32 s0 s1 s2 s3) (v32 t0 t1 t2 t3) (dp1 * 256 + dp0)), tb).
+Proof.
+  intros Hv Htl Hul Hme Hdp. rewrite rx_frame_eth.
+  set (seg := [sp1; sp0; dp1; dp0; ul1; ul0; uc1; uc0] ++ payload).
+  assert (Hseg : blen seg = 8 + blen payload) by (unfold seg; rewrite blen_app; reflexivity).
+  rewrite ipv4_decode_hdr by (rewrite ?blen_app; lia).
+  cbn [ip_proto ip_payload ip_dst ip_src].
+  replace (N.to_nat (tl1 * 256 + tl0 - 20)) with (length seg) by (unfold blen in *; lia).
+  rewrite firstn_app, Nat.sub_diag, firstn_all. cbn [firstn]. rewrite app_nil_r.
+  unfold udp_decode. rewrite Hseg.
+  assert (8 + blen payload <? 8 = false) as -> by (apply N.ltb_ge; lia).
+  unfold seg at 1. unfold u16, u8. cbn [app nth]. rewrite Hul, N.eqb_refl. cbn [negb].
+  unfold seg. cbn [app nth].
+  apply existsb_eqb_in in Hme. rewrite Hme.
+  assert (existsb (N.eqb (dp1 * 256 + dp0)) udp_decoder_ports = false) as ->.
+  { apply not_true_is_false. intros H. apply existsb_eqb_in in H. auto. }
+  reflexivity.
+Qed.
+
+Lemma tcp_opts_ok_nil fuel : tcp_opts_ok fuel [] = true.
+Proof. destruct fuel; reflexivity. Qed.
+
+(* every TCP segment without options with SYN and without ACK (any other flag, sequence
+   numbers, window, CHECKSUM and payload), neither port 22, addressed to us, is a knock with the
+   frame's addresses and destination port - whatever records the state table holds (a repeated
+   SYN knocks again); it adds one record *)
+Lemma tcp_syn_frame_knocks me tb d0 d1 d2 d3 d4 d5 m0 m1 m2 m3 m4 m5
+      v tos tl1 tl0 id1 id0 fr1 fr0 ttl ck1 ck0 s0 s1 s2 s3 t0 t1 t2 t3
+      sp1 sp0 dp1 dp0 q0 q1 q2 q3 a0 a1 a2 a3 off fl w1 w0 c1 c0 u1 u0 payload trail :
+  (v mod 16) * 4 <= 40 + blen payload ->
+  tl1 * 256 + tl0 = 40 + blen payload ->
+  off / 16 = 5 -> flag (fl mod 64) 1 = true -> flag (fl mod 64) 4 = false ->
+  sp1 * 256 + sp0 <> 22 -> dp1 * 256 + dp0 <> 22 ->
+  In (v32 t0 t1 t2 t3) me ->
+  rx_frame me tb (eth_hdr [d0; d1; d2; d3; d4; d5] [m0; m1; m2; m3; m4; m5] ++
+                  ip_hdr v tos tl1 tl0 id1 id0 fr1 fr0 ttl 6 ck1 ck0 [s0; s1; s2; s3] [t0; t1; t2; t3] ++
+                  ([sp1; sp0; dp1; dp0; q0; q1; q2; q3; a0; a1; a2; a3; off; fl; w1; w0; c1; c0; u1; u0]
+                   ++ payload) ++ trail)
+  = (FKnock (mkKnock KTcp (v48 m0 m1 m2 m3 m4 m5) (v48 d0 d1 d2 d3 d4 d5)
+                     (v32 s0 s1 s2 s3) (v32 t0 t1 t2 t3) (dp1 * 256 + dp0)),
+     tb ++ [((v32 s0 s1 s2 s3, v32 t0 t1 t2 t3, sp1 * 256 + sp0, dp1 * 256 + dp0), SSynReceived)]).
+Proof.
+  intros Hv Htl Hoff Hsyn Hack Hsp Hdp Hme. rewrite rx_frame_eth.
+  set (seg := [sp1; sp0; dp1; dp0; q0; q1; q2; q3; a0; a1; a2; a3; off; fl; w1; w0; c1; c0; u1; u0] ++ payload).
+  assert (Hseg : blen seg = 20 + blen payload) by (unfold seg; rewrite blen_app; reflexivity).
+  rewrite ipv4_decode_hdr by (rewrite ?blen_app; lia).
+  cbn [ip_proto ip_payload ip_dst ip_src].
+  replace (N.to_nat (tl1 * 256 + tl0 - 20)) with (length seg) by (unfold blen in *; lia).
+  rewrite firstn_app, Nat.sub_diag, firstn_all. cbn [firstn]. rewrite app_nil_r.
+  unfold rx_tcp. cbn [ip_payload ip_src ip_dst].
+  assert (Hused : tcp_header_used seg (v32 s0 s1 s2 s3) (v32 t0 t1 t2 t3) = true).
+  { unfold tcp_header_used, tcp_unmarshal_ok. rewrite Hseg.
+    assert (20 <=? 20 + blen payload = true) as -> by (apply N.leb_le; lia).
+    assert (Hn : u8 seg 12 = off) by reflexivity. rewrite Hn, Hoff.
+    change (5 <=? 5) with true. change (5 * 4) with 20.
+    assert (20 <=? 20 + blen payload = true) as -> by (apply N.leb_le; lia).
+    change (N.to_nat (20 - 20)) with O. cbn [firstn].
+    rewrite tcp_opts_ok_nil. reflexivity. }
+  rewrite Hused. cbn [negb].
+  apply existsb_eqb_in in Hme. rewrite Hme. cbn [negb].
+  unfold seg. unfold u16, u8. cbn [app nth].
+  apply N.eqb_neq in Hsp. apply N.eqb_neq in Hdp. rewrite Hsp, Hdp. cbn [orb].
+  rewrite Hsyn, Hack. reflexivity.
+Qed.
+Close Scope N_scope.
+
+(* ---- converse: what a knock says about the frame (fixed offsets of Ethernet II + IPv4) ---- *)
+Open Scope N_scope.
+
+Lemma u8_skipn n : forall (l : bytes) i, u8 (skipn n l) i = u8 l (n + i).
+Proof.
+  unfold u8. induction n as [|n IH]; intros l i; [reflexivity|].
+  destruct l as [|a r]; [destruct i; reflexivity|]. cbn [skipn Nat.add nth]. apply IH.
+Qed.
+
+Lemma u8_firstn m : forall (l : bytes) i, (i < m)%nat -> u8 (firstn m l) i = u8 l i.
+Proof.
+  unfold u8. induction m as [|m IH]; intros l i H; [lia|].
+  destruct l as [|a r]; [reflexivity|]. destruct i; cbn [firstn nth]; auto. apply IH; lia.
+Qed.
+
+Lemma blen_skipn n (l : bytes) : blen (skipn n l) = blen l - N.of_nat n.
+Proof. unfold blen. rewrite skipn_length. lia. Qed.
+
+Lemma blen_firstn m (l : bytes) : blen (firstn m l) = N.min (N.of_nat m) (blen l).
+Proof. unfold blen. rewrite firstn_length. lia. Qed.
+
+Lemma ipv4_decode_sound b ip :
+  ipv4_decode b = Some ip ->
+  20 <= u16 b 2 <= blen b /\
+  ip_proto ip = u8 b 9 /\ ip_src ip = be32 b 12 /\ ip_dst ip = be32 b 16 /\
+  blen (ip_payload ip) = u16 b 2 - 20 /\
+  (forall i, (N.of_nat i < u16 b 2 - 20) -> u8 (ip_payload ip) i = u8 b (20 + i)).
+Proof.
+  unfold ipv4_decode. set (sk := skipn 20 b). assert (Hsk : sk = skipn 20 b) by reflexivity. clearbody sk.
+  destruct (blen b <? 20) eqn:E1; [discriminate|].
+  destruct (blen b <? u8 b 0 mod 16 * 4) eqn:E2; [discriminate|].
+  destruct (blen b <? u16 b 2) eqn:E3; [discriminate|].
+  destruct (u16 b 2 <? 20) eqn:E4; [discriminate|].
+  intros H; injection H as <-. cbn [ip_proto ip_src ip_dst ip_payload].
+  apply N.ltb_ge in E1, E3, E4.
+  split; [lia|]. split; [reflexivity|]. split; [reflexivity|]. split; [reflexivity|]. split.
+  - rewrite blen_firstn, Hsk, blen_skipn. lia.
+  - intros i Hi. rewrite u8_firstn by lia. rewrite Hsk. apply u8_skipn.
+Qed.
+
+Definition frame_fields_ok (me : list N) (f : bytes) (k : knock) : Prop :=
+  u16 f 12 = 2048 /\ 20 <= u16 f 16 /\ 14 + u16 f 16 <= blen f /\
+  In (k_dip k) me /\
+  k_smac k = be48 f 6 /\ k_dmac k = be48 f 0 /\ k_sip k = be32 f 26 /\ k_dip k = be32 f 30 /\
+  match k_kind k with
+  | KIcmp => u8 f 23 = 1 /\ 28 <= u16 f 16
+  | KUdp => u8 f 23 = 17 /\ 28 <= u16 f 16 /\ u16 f 38 = u16 f 16 - 20 /\
+            k_port k = u16 f 36 /\ ~ In (u16 f 36) udp_decoder_ports
+  | KTcp => u8 f 23 = 6 /\ 40 <= u16 f 16 /\ k_port k = u16 f 36 /\
+            u16 f 34 <> 22 /\ u16 f 36 <> 22 /\ flag (u8 f 47 mod 64) 1 = true
+  end.
+
+Lemma rx_tcp_sound me tb smac dmac ip o tb' k :
+  rx_tcp me tb smac dmac ip = (o, tb') -> o = FKnock k ->
+  let d := ip_payload ip in
+  20 <= blen d /\ In (ip_dst ip) me /\ k = mkKnock KTcp smac dmac (ip_src ip) (ip_dst ip) (u16 d 2) /\
+  u16 d 0 <> 22 /\ u16 d 2 <> 22 /\ flag (u8 d 13 mod 64) 1 = true.
+Proof.
+  unfold rx_tcp. intros H Ho. subst o.
+  destruct (tcp_header_used (ip_payload ip) (ip_src ip) (ip_dst ip)) eqn:Eu; cbn [negb] in H; [|discriminate].
+  destruct (existsb (N.eqb (ip_dst ip)) me) eqn:Em; cbn [negb] in H; [|discriminate].
+  destruct ((u16 (ip_payload ip) 0 =? 22) || (u16 (ip_payload ip) 2 =? 22)) eqn:E22; [discriminate|].
+  apply orb_false_iff in E22 as (Ea & Eb). apply N.eqb_neq in Ea, Eb.
+  unfold tcp_header_used in Eu. apply andb_true_iff in Eu as (El & _). apply N.leb_le in El.
+  apply existsb_eqb_in in Em.
+  assert (Hk : forall t, (FKnock (mkKnock KTcp smac dmac (ip_src ip) (ip_dst ip) (u16 (ip_payload ip) 2)), t)
+                         = (FKnock k, tb') ->
+               k = mkKnock KTcp smac dmac (ip_src ip) (ip_dst ip) (u16 (ip_payload ip) 2))
+    by (intros t E; injection E; auto).
+  destruct (flag (u8 (ip_payload ip) 13 mod 64) 1) eqn:Es;
+  destruct (flag (u8 (ip_payload ip) 13 mod 64) 4) eqn:Ek;
+  destruct (flag (u8 (ip_payload ip) 13 mod 64) 2) eqn:Er;
+  destruct (flag (u8 (ip_payload ip) 13 mod 64) 0) eqn:Ef;
+  cbn [andb negb] in H;
+  try (destruct (tget tb _) as [[]|]);
+  try discriminate H;
+  (repeat split; auto; eapply Hk; exact H).
+Qed.
+
+Lemma rx_frame_sound me tb f k tb' :
+  rx_frame me tb f = (FKnock k, tb') -> frame_fields_ok me f k.
+Proof.
+  unfold rx_frame.
+  destruct (blen f <? 14) eqn:E14; [discriminate|].
+  destruct (u16 f 12 =? 2048) eqn:Et; cbn [negb]; [|discriminate].
+  apply N.eqb_eq in Et. apply N.ltb_ge in E14.
+  destruct (ipv4_decode (skipn 14 f)) as [ip|] eqn:Eip; [|discriminate].
+  apply ipv4_decode_sound in Eip as (Htl & Hp & Hs & Hd & Hpl & Hpay).
+  assert (F16 : u16 (skipn 14 f) 2 = u16 f 16) by (unfold u16; rewrite !u8_skipn; reflexivity).
+  assert (F9 : u8 (skipn 14 f) 9 = u8 f 23) by (rewrite u8_skipn; reflexivity).
+  assert (F12 : be32 (skipn 14 f) 12 = be32 f 26) by (unfold be32, u16; rewrite !u8_skipn; reflexivity).
+  assert (F30 : be32 (skipn 14 f) 16 = be32 f 30) by (unfold be32, u16; rewrite !u8_skipn; reflexivity).
+  rewrite F16 in *. rewrite F9 in Hp. rewrite F12 in Hs. rewrite F30 in Hd.
+  rewrite blen_skipn in Htl.
+  assert (Hpay' : forall i, N.of_nat i < u16 f 16 - 20 -> u8 (ip_payload ip) i = u8 f (34 + i)).
+  { intros i Hi. rewrite Hpay by auto. rewrite u8_skipn. f_equal. }
+  intros H. unfold frame_fields_ok.
+  assert (Hcommon : forall kind port, k = mkKnock kind (be48 f 6) (be48 f 0) (ip_src ip) (ip_dst ip) port ->
+            In (ip_dst ip) me ->
+            u16 f 12 = 2048 /\ 20 <= u16 f 16 /\ 14 + u16 f 16 <= blen f /\ In (k_dip k) me /\
+            k_smac k = be48 f 6 /\ k_dmac k = be48 f 0 /\ k_sip k = be32 f 26 /\ k_dip k = be32 f 30).
+  { intros kind port -> Hin. cbn [k_dip k_smac k_dmac k_sip]. rewrite <- Hs, <- Hd.
+    repeat split; auto; lia. }
+  destruct (N.eq_dec (ip_proto ip) 1) as [P1|P1]; [|destruct (N.eq_dec (ip_proto ip) 17) as [P17|P17];
+    [|destruct (N.eq_dec (ip_proto ip) 6) as [P6|P6]]].
+  - rewrite P1 in H.
+    destruct (icmp_decode (ip_payload ip) && existsb (N.eqb (ip_dst ip)) me) eqn:E; [|discriminate].
+    apply andb_true_iff in E as (Ei & Em). apply existsb_eqb_in in Em.
+    unfold icmp_decode in Ei. apply N.leb_le in Ei. injection H as Hk _. symmetry in Hk.
+    destruct (Hcommon _ _ Hk Em) as (A1 & A2 & A3 & A4 & A5 & A6 & A7 & A8).
+    repeat split; auto. subst k. cbn [k_kind]. split; [congruence|lia].
+  - rewrite P17 in H.
+    destruct (udp_decode (ip_payload ip)) as [[sp dp]|] eqn:Eu; [|discriminate].
+    unfold udp_decode in Eu.
+    destruct (blen (ip_payload ip) <? 8) eqn:E8; [discriminate|].
+    destruct (u16 (ip_payload ip) 4 =? blen (ip_payload ip)) eqn:El; cbn [negb] in Eu; [|discriminate].
+    injection Eu as <- <-. apply N.ltb_ge in E8. apply N.eqb_eq in El.
+    destruct (existsb (N.eqb (ip_dst ip)) me && negb (existsb (N.eqb (u16 (ip_payload ip) 2)) udp_decoder_ports)) eqn:E;
+      [|discriminate].
+    apply andb_true_iff in E as (Em & Ed). apply existsb_eqb_in in Em. apply negb_true_iff in Ed.
+    injection H as Hk _. symmetry in Hk.
+    destruct (Hcommon _ _ Hk Em) as (A1 & A2 & A3 & A4 & A5 & A6 & A7 & A8).
+    assert (G2 : u16 (ip_payload ip) 2 = u16 f 36).
+    { unfold u16. rewrite !Hpay' by (cbn; lia). reflexivity. }
+    assert (G4 : u16 (ip_payload ip) 4 = u16 f 38).
+    { unfold u16. rewrite !Hpay' by (cbn; lia). reflexivity. }
+    repeat split; auto. subst k. cbn [k_kind k_port].
+    repeat split; try congruence; try lia.
+    rewrite <- G2. intros Hin. apply existsb_eqb_in in Hin. congruence.
+  - rewrite P6 in H.
+    destruct (rx_tcp me tb (be48 f 6) (be48 f 0) ip) as [o t] eqn:Er.
+    injection H as Ho _.
+    destruct (rx_tcp_sound _ _ _ _ _ _ _ k Er Ho) as (B1 & B2 & B3 & B4 & B5 & B6).
+    destruct (Hcommon _ _ B3 B2) as (A1 & A2 & A3 & A4 & A5 & A6 & A7 & A8).
+    assert (G0 : u16 (ip_payload ip) 0 = u16 f 34).
+    { unfold u16. rewrite !Hpay' by (cbn; lia). reflexivity. }
+    assert (G2 : u16 (ip_payload ip) 2 = u16 f 36).
+    { unfold u16. rewrite !Hpay' by (cbn; lia). reflexivity. }
+    assert (G13 : u8 (ip_payload ip) 13 = u8 f 47) by (rewrite Hpay' by (cbn; lia); reflexivity).
+    repeat split; auto. subst k. cbn [k_kind k_port].
+    repeat split; try congruence; try lia.
+  - exfalso. revert H. destruct (ip_proto ip) as [|p]; [discriminate|].
+    do 5 (try destruct p as [p|p|]); try discriminate; try congruence.
+Qed.
+Close Scope N_scope.
